@@ -1049,7 +1049,28 @@ func wJudge(c *ctx, r *wRun, d *Driver, impl *[]string, ins *[]wInput) {
 	}
 	if cfs := r.cfaults(); !in.Bam && (in.ExtraLen > 0 || in.BadName) {
 		d.add("c12.tracec %d 1 %s %s %s %s", wcNat(in.WC), faultArg(in), intsOr(cfs), joinOr(script), joinOr(ev))
-		*impl = append(*impl, fmt.Sprintf("path out=%s eof=%s done=%s stuck=0 err=%s", intsOr(out), b01(eof), b01(done), b01(anyFail || len(cfs) > 0)))
+		// The model answers err=1 when an error CAN be latched in a state compatible with the observed trace.
+		// A block whose compression fails latches the error only when the emitting goroutine gets to it, i.e.
+		// after every earlier block has been delivered (an observable event) or has itself failed: a run that
+		// ends before that (a script without Close or Wait) has not latched anything yet.
+		reached := false
+		for _, cf := range cfs {
+			before := 0
+			for _, o := range out {
+				if o < cf {
+					before++
+				}
+			}
+			for _, c2 := range cfs {
+				if c2 < cf {
+					before++
+				}
+			}
+			if before >= cf {
+				reached = true
+			}
+		}
+		*impl = append(*impl, fmt.Sprintf("path out=%s eof=%s done=%s stuck=0 err=%s", intsOr(out), b01(eof), b01(done), b01(anyFail || reached)))
 		*ins = append(*ins, in)
 		return
 	}
